@@ -44,6 +44,7 @@ func (r *Run) Execute() {
 		return
 	}
 	defer w.Close()
+	w.shadowGE = r.Plan.M.Cursor == "ge"
 	emit := func(pos int, j J) {
 		j["run"] = r.No
 		r.Lines = append(r.Lines, Line{J: j, Run: r.No, Pos: pos})
@@ -61,7 +62,11 @@ func (r *Run) Execute() {
 		case "start":
 			ret, detail := ob.start(f)
 			if ret == "bad" {
-				r.Err = fmt.Errorf("step %d: %s", pos, detail)
+				prev := ""
+				if n := len(r.Lines); n > 0 {
+					prev = brief(r.Lines[n-1].J)
+				}
+				r.Err = fmt.Errorf("step %d: %s; previous line: %s", pos, detail, prev)
 				return ret, false
 			}
 			ob.mu.Lock()
